@@ -55,11 +55,10 @@ func inst(g lstore.Geometry) string {
 func shutdownBody(g lstore.Geometry, uploads [][]string, lateUpload bool) func() {
 	return func() {
 		med := lstore.NewMedia(g)
-		s := lstore.Open(g, med)
 		ctx, cancel := context.WithCancel(context.Background())
 		defer cancel()
 		exited := false
-		s.StartSyncers(ctx, func() { exited = true })
+		s := lstore.OpenWith(g, med, lstore.OpenOptions{Ctx: ctx, OnPutLoopExit: func() { exited = true }})
 		var acks []lstore.Ack
 		var wg vsync.WaitGroup
 		requested := false
